@@ -117,8 +117,14 @@ func (b *Buffer[K, V]) drain() *PolicyBuffers[K, V] {
 		return nil
 	}
 
-	// head is only moved by the holder of the token
+	// head is only moved by the holder of the token. Both counters are read again
+	// under the token: the caller may have seen a stale head, and a drain of a
+	// ring that is not full would move head past tail
 	head := b.head.Load()
+	if b.tail.Load()-head < capacity {
+		atomic.StorePointer(&b.returned, b.policyBuffers)
+		return nil
+	}
 	pb := (*PolicyBuffers[K, V])(b.policyBuffers)
 	for i := 0; i < capacity; i++ {
 		index := int(head & mask)
